@@ -14,4 +14,5 @@
 //@include units/speclib_edfx.rs
 //@include units/fifo.rs
 //@include units/lemmas_edf.rs
+//@include units/lemmas_np_fifo.rs
 fn main() {}
